@@ -172,7 +172,8 @@ func Load(cfg Config) (*Prog, error) {
 	p.fnByName = map[string]*ssa.Function{}
 	p.litIndex = map[*ssa.Function]string{}
 	for fn := range ssautil.AllFunctions(prog) {
-		if fn.Synthetic != "" && !strings.Contains(fn.Synthetic, "instance of") {
+		// bodies of range-over-func loops are synthetic literals holding source code
+		if fn.Synthetic != "" && !strings.Contains(fn.Synthetic, "instance of") && !strings.Contains(fn.Synthetic, "range-over-func") {
 			continue
 		}
 		if len(fn.Blocks) == 0 {
